@@ -38,6 +38,7 @@ func c15Gen(class string, seed uint64, tier string) *vfScenario {
 	case "rs-park":
 		sc.Cfg["kind"], sc.Cfg["parkdata"] = 1, 1
 		sc.Cfg["alloc"] = int64(rng.IntN(2))
+		sc.Cfg["parkafter"] = int64(rng.IntN(2)) // the backend may also be slow to *return* from a call that has taken effect
 	case "inmem":
 		sc.Cfg["kind"] = 3 // the package's own in-memory backend
 		sc.Cfg["alloc"] = int64(rng.IntN(2))
